@@ -53,7 +53,7 @@ def check(F, R, tier):
     R.floor('parameter-mismatch refusals after reserve_port', n, 6)
     for c in cu:
         t = sym_nstr(sym(f, c.args[1]))
-        R.ob('FLOW', 'FLOW::%s::cleanup-removes-the-reserved-role' % fnkey(f), lib.param_is(f, c.args[1], 'port_to_register', 2), 'cleanup_shared_memory(.., %s); required the role that was reserved (port_to_register)' % t, c.where, f)
+        R.ob('FLOW', 'FLOW::%s::cleanup-removes-the-reserved-role' % fnkey(f), lib.param_is(f, lib.arg(F, c, 'state_to_remove', 1, r'details::State$'), 'port_to_register', 2), 'cleanup_shared_memory(.., %s); required the role that was reserved (port_to_register)' % t, c.where, f)
     for c in rp:
         t = sym_nstr(sym(f, c.args[1]))
         R.ob('FLOW', 'FLOW::%s::reserves-the-requested-role' % fnkey(f), lib.has_origin(f, c.args[1], None, ('port_to_register', 2)), 'reserve_port(%s)' % t, c.where, f)
@@ -84,7 +84,7 @@ def check(F, R, tier):
         R.ob('ONLY-UNDER', 'ONLY-UNDER::%s::acquire_ownership-under-MarkedForDestruction' % fnkey(c), ok, 'acquire_ownership guarded by %s; required remove_state(..) == State::MarkedForDestruction.value()' % conds, a.where, c)
     for r_ in rs:
         t = sym_nstr(sym(c, r_.args[1]))
-        R.ob('FLOW', 'FLOW::%s::removes-the-given-role' % fnkey(c), t == 'state_to_remove', 'remove_state(%s)' % t, r_.where, c)
+        R.ob('FLOW', 'FLOW::%s::removes-the-given-role' % fnkey(c), (c.prov_operand(r_.args[1]).root[0] == 'arg' and c.prov_operand(r_.args[1]).root[1] == lib.param_index_ty(c, 'state_to_remove', 2, r'details::State$') and not [q for q in c.prov_operand(r_.args[1]).path if q != '*']), 'remove_state(%s)' % t, r_.where, c)
     # ---- Drop / forced removal pass their own role
     for ty, role in (('Sender', 'Sender'), ('Receiver', 'Receiver')):
         ds = F.find_fns(r'^<' + re.escape(ZC) + ty + r'<.*> as core::ops::drop::Drop>::drop$')
@@ -95,7 +95,7 @@ def check(F, R, tier):
         cs = d.calls(r'details::cleanup_shared_memory$')
         R.ob('MUST-CALL', 'MUST-CALL::%s::cleanup_shared_memory' % fnkey(d), len(cs) == 1 and d.exists_path(None, d.ret_sites(), cs, from_entry=True) is None, 'Drop detaches on every path', d.file + ':%s' % d.line, d)
         for x in cs:
-            const_arg(R, d, x, 1, {role}, 'own-role', 'a %s removes the %s bit' % (ty, role))
+            const_arg(R, d, x, lib.argi(F, x, 'state_to_remove', 1, r'details::State$'), {role}, 'own-role', 'a %s removes the %s bit' % (ty, role))
     for nm, role in (('remove_sender', 'Sender'), ('remove_receiver', 'Receiver')):
         fs = F.find_fns(r'^<' + re.escape(ZC) + r'Connection<.*> as iceoryx2_cal::zero_copy_connection::ZeroCopyConnection>::' + nm + '$')
         if len(fs) != 1:
@@ -119,7 +119,7 @@ def check(F, R, tier):
             t_ = sym_nstr(sym(g, s.site.args[1]))
             R.ob('CONST-ARG', 'CONST-ARG::%s::channel-state=CLOSED' % fnkey(g), 'CHANNEL_STATE_CLOSED' in t_, 'channel state stored: %s' % t_, s.site.where, g)
         for x in cs:
-            R.ob('FLOW', 'FLOW::%s::removes-the-given-role' % fnkey(g), lib.param_is(g, x.args[1], 'port', 4), 'cleanup_shared_memory(.., %s)' % sym_nstr(sym(g, x.args[1])), x.where, g)
+            R.ob('FLOW', 'FLOW::%s::removes-the-given-role' % fnkey(g), lib.param_is(g, lib.arg(F, x, 'state_to_remove', 1, r'details::State$'), 'port', 4), 'cleanup_shared_memory(.., %s)' % sym_nstr(sym(g, lib.arg(F, x, 'state_to_remove', 1, r'details::State$'))), x.where, g)
     else:
         R.missing('Connection::remove_port')
     # ---- reserve_port / remove_state
